@@ -155,6 +155,31 @@ func vh_ndp_solicit() {
 	vreach("answered")
 }
 
+// The advertisement's checksum is computed over the pseudo-header it is SENT with (source =
+// the solicited target), also when the solicitation arrived on the solicited-node multicast
+// address (where the route's local address is that multicast address until it is rewritten).
+func vh_ndp_solicit_cksum() {
+	env := vhNewEnv()
+	env.cache.Own = func(a tcpip.Address) bool { return a == vhLocal }
+	if vnBool("multicast") {
+		env.r.LocalAddress = header.SolicitedNodeAddr(vhLocal)
+		vreach("to-multicast")
+	}
+	b := make([]byte, 24)
+	b[0] = 135
+	b[4], b[5] = vnU8("rsv0"), vnU8("rsv1")
+	copy(b[8:], []byte(vhLocal))
+	env.e.handleICMP(&env.r, vhPkt(b, 0))
+	vassert(len(env.link.Sent) == 1, "answered once")
+	h := env.link.Sent[0].Hdr
+	vassert(len(h) == 72 && vhSame(h[8:24], []byte(vhLocal)) && vhSame(h[24:40], []byte(vhRemote)), "from the target address to the requester")
+	msg := append([]byte{}, h[40:]...)
+	ck := uint16(msg[2])<<8 | uint16(msg[3])
+	msg[2], msg[3] = 0, 0
+	vassert(ck == vhICMP6Sum(tcpip.Address(h[8:24]), tcpip.Address(h[24:40]), msg), "the ICMPv6 checksum of the advertisement verifies against the addresses in its own IPv6 header")
+	vreach("na-cksum")
+}
+
 func vh_ndp_advert() {
 	env := vhNewEnv()
 	n := 32
